@@ -546,6 +546,116 @@ def r02_11(ctx, rr):
                 rr.violate(key, "%s closes inventory_begin with `%s`; the entries are indices into the inventory, so the sentinel must be the number of inventory entries (`inventory.len()`): with more than one entry per word a valid index exceeds this value and select looks in the wrong superblock" % (b.key, show(F, a)[:80]), F.loc(n))
 
 
+@rule("R02.13", props=["C02"], floor=2, title="SelectSmall/SelectZeroSmall: inventory_begin gets one entry per superblock (also for a superblock without inventory entries): its index is the superblock index the queries compare it with")
+def r02_13(ctx, rr):
+    """select_unchecked looks inv_idx up in inventory_begin and compares the index found with the index of the
+    superblock of the rank (from upper_counts). That is only meaningful if entry k of inventory_begin belongs to
+    superblock k: the loop over the superblocks must push once per iteration, not only when an inventory entry
+    falls in the superblock."""
+    F = ctx.F()
+    news = [b for b in F.fns() if b.name == "_new" and b.file.endswith(("rank_sel/select_small.rs", "rank_sel/select_zero_small.rs"))]
+    if len(news) < 2:
+        raise AnchorMissing("expected the _new constructors of SelectSmall and SelectZeroSmall")
+    seen = set()
+    for b in news:
+        if b.file in seen:
+            continue
+        beg = None
+        for n in walk(b.body):
+            if n.get("k") == "Struct" and range_of(F, n) is None:
+                for f in n["fields"]:
+                    if f["name"] == "inventory_begin":
+                        ps = [x for x in walk(f["e"]) if x.get("k") == "Path" and x.get("res") == "local"]
+                        if ps:
+                            beg = ps[0]["id"]
+        for _ in range(4):
+            ls = [x for x in walk(b.body) if x.get("k") == "LetStmt" and x["pat"].get("k") == "PBind" and x["pat"]["id"] == beg and "init" in x]
+            if not ls or ls[0]["init"].get("k") != "MethodCall" or ls[0]["init"]["name"] not in ("into_boxed_slice", "into"):
+                break
+            ps = [x for x in walk(ls[0]["init"]) if x.get("k") == "Path" and x.get("res") == "local"]
+            if not ps:
+                break
+            beg = ps[0]["id"]
+        if beg is None:
+            raise AnchorMissing("%s: no local flows into inventory_begin" % b.key)
+        pm = {id(n): ps for n, ps in walk_with_parents(b.body)}
+        pushes = [n for n in walk(b.body) if n.get("k") == "MethodCall" and n["name"] == "push" and n["recv"].get("k") == "Path" and n["recv"].get("id") == beg]
+        in_loop = [n for n in pushes if any(p.get("k") == "Loop" for p in pm[id(n)])]
+        if not in_loop:
+            raise AnchorMissing("%s: inventory_begin is not filled inside the loop over the superblocks" % b.key)
+        # the superblock loop: the outermost loop around the pushes
+        outer = [p for p in pm[id(in_loop[0])] if p.get("k") == "Loop"][0]
+        per_superblock = [n for n in in_loop if [p for p in pm[id(n)] if p.get("k") == "Loop"] == [outer]]
+        seen.add(b.file)
+        rr.instances += 1
+        key = "%s:inventory_begin-one-entry-per-superblock" % short_fn(b.key)
+        rr.ob(bool(per_superblock), key=key, sample={"fn": b.key, "pushes_in_loops": len(in_loop), "pushes_once_per_superblock": len(per_superblock)})
+        if not per_superblock:
+            rr.violate(key, "%s pushes onto inventory_begin only from inside the loop that emits inventory entries: a superblock (2^32 bits) in which no entry falls gets no slot, the slots of all later superblocks shift down by one, and select compares their index with the index of the superblock of the rank (panic or wrong block on vectors longer than 2^32 bits with an empty stretch)" % b.key, F.loc(in_loop[0]))
+
+
+@rule("R02.14", props=["C02"], floor=4, title="SelectSmall/SelectZeroSmall: the block search never leaves the superblock of the rank (every end of the search range is clipped to (upper_block_idx + 1) * blocks per superblock)")
+def r02_14(ctx, rr):
+    """The absolute counters restart at every superblock; a partition point computed over blocks of two superblocks
+    compares the local rank with counters of the wrong superblock."""
+    F = ctx.F()
+    qs = [b for b in F.fns() if b.name in ("select_unchecked", "select_zero_unchecked") and b.file.endswith(("rank_sel/select_small.rs", "rank_sel/select_zero_small.rs"))]
+    if len(qs) < 2:
+        raise AnchorMissing("expected select_unchecked / select_zero_unchecked of the small selectors")
+    seen = set()
+    for b in qs:
+        if b.file in seen:
+            continue
+        # the local used as the end of the slice `counts[block_idx..END]`
+        ends = []
+        for n in walk(b.body):
+            if n.get("k") == "Index":
+                r = range_of(F, n["i"]) if n["i"].get("k") == "Struct" else None
+                if r and r[1] is not None and r[1].get("k") == "Path" and r[1].get("res") == "local":
+                    ends.append(r[1]["id"])
+        if not ends:
+            continue  # a forwarder (the selector of the other kind delegates to the underlying structure)
+        seen.add(b.file)
+        end_id = ends[0]
+        from r_guards import simple_env
+        T = simple_env(F, b)
+        asg = [n for n in walk(b.body) if n.get("k") == "Assign" and n["l"].get("k") == "Path" and n["l"].get("id") == end_id]
+        lets = [n for n in walk(b.body) if n.get("k") == "LetStmt" and n["pat"].get("k") == "PBind" and n["pat"]["id"] == end_id and "init" in n]
+        vals = [a["r"] for a in asg] + [l["init"] for l in lets]
+        if len(vals) < 2:
+            raise AnchorMissing("%s: expected the end of the search range to be assigned on two paths, found %d" % (b.key, len(vals)))
+
+        def leaves(e):
+            if e.get("k") == "If":
+                out = []
+                for br in (e["th"], e.get("el")):
+                    if br is None:
+                        continue
+                    tail = br.get("expr") if br.get("k") == "Block" else br
+                    out += leaves(tail) if tail is not None else []
+                return out
+            if e.get("k") == "Block" and "expr" in e:
+                return leaves(e["expr"])
+            return [e]
+        for v in vals:
+            for leaf in leaves(v):
+                t = T.term(leaf)
+                rr.instances += 1
+                key = "%s:search-range-within-superblock" % short_fn(b.key)
+                # admissible: the block of an inventory position of this superblock (mentions inventory), or an
+                # expression clipped by / equal to (upper_block_idx + 1) * (SUPERBLOCK / BLOCK)
+                def is_sb_end(x):
+                    return x[0] == "op" and x[1] == "*" and any(y[0] == "op" and y[1] == "/" and "SUPERBLOCK_BIT_SIZE" in repr(y) and "BLOCK_BIT_SIZE" in repr(y) for y in (x[2], x[3]))
+                from_inventory = mentions(t, lambda x: x[0] == "call" and x[1].endswith("get_unchecked") and "inventory" in repr(x))
+                clipped = is_sb_end(t) or (t[0] == "op" and t[1] == "min" and (is_sb_end(t[2]) or is_sb_end(t[3])))
+                ok = from_inventory or clipped
+                rr.ob(ok, key=key, sample={"fn": b.key, "end": tshow(t)[:120]})
+                if not ok:
+                    rr.violate(key, "%s ends the block search at `%s`, which is neither the block of an inventory entry of the rank's superblock nor clipped to the end of that superblock ((upper_block_idx + 1) * (SUPERBLOCK_BIT_SIZE / BLOCK_BIT_SIZE)): on a vector that continues into the next superblock the search compares the local rank with counters that restarted from zero" % (b.key, tshow(t)[:100]), F.loc(leaf))
+    if len(seen) < 2:
+        raise AnchorMissing("R02.14: expected a `counts[a..b]` block search in both small selectors, found it in %d file(s)" % len(seen))
+
+
 @rule("R02.12", props=["C02", "C01"], floor=10, title="broadword comparisons: a subtraction whose minuend has the lane MSBs forced to one has the lane MSBs cleared in its subtrahend")
 def r02_12(ctx, rr):
     """`((y | MSBS) - (x & !MSBS))` keeps every lane's borrow inside the lane. With the subtrahend unmasked a lane
